@@ -8,18 +8,20 @@ from . import sqe
 from . import addr
 
 EXPLANATION = (
-    "Decides: (R1) owner-pointer discipline — the only writers of ReadBuf.owned are the constructors (None / "
+    'Decides: (R1) owner-pointer discipline — the only writers of ReadBuf.owned are the constructors (None / '
     "Some(init_buffer(id,n))), release (Option::take), buffer_init's empty edge and editing methods that store "
-    "Some(change_size(previous value, _)); change_size keeps the data pointer, so the address given back on "
-    "release is the address handed out; (R2) release once: shared.release(ptr) is dominated by the Some edge of "
-    "self.owned.take(), Drop calls release, ReadBuf is neither Clone nor Copy; (R3) pool side: the ring entry write "
-    "and the tail store lie inside the reregister_lock guard, the 16-bit ring tail is only used wrap-safely "
-    "(wrapping_add, index = tail & tail_mask), the Release tail store is the last write; (R4) id<->address "
-    "agreement: new() offers addr = bufs_addr + i*buf_size with bid = i, init_buffer returns bufs_addr + "
-    "id*buf_size, release derives bid = (ptr - bufs_addr)/buf_size and re-offers addr = ptr, len = buf_size; ids come "
-    "only from CompletionFlags::buf_id = flags >> IORING_CQE_BUFFER_SHIFT gated by IORING_CQE_F_BUFFER; (R5) "
-    "operations that select pool buffers must return a buffer the kernel picked for an abandoned operation — known "
-    "finding K2. Conservation over histories (a counting argument over run-time state) is not decided."
+    'Some(change_size(previous value, _)); change_size keeps the data pointer, so the address given back on '
+    'release is the address handed out; (R2) release once: shared.release(ptr) is dominated by the Some edge '
+    'of self.owned.take(), Drop calls release, ReadBuf is neither Clone nor Copy; (R3) pool side: the ring '
+    'entry write and the tail store lie inside the reregister_lock guard, the 16-bit ring tail is only used '
+    'wrap-safely (wrapping_add, index = tail & tail_mask), the Release tail store is the last write; (R4) '
+    'id<->address agreement: new() offers addr = bufs_addr + i*buf_size with bid = i, init_buffer returns '
+    'bufs_addr + id*buf_size, release derives bid = (ptr - bufs_addr)/buf_size and re-offers addr = ptr, len = '
+    'buf_size; ids come only from CompletionFlags::buf_id = flags >> IORING_CQE_BUFFER_SHIFT gated by '
+    'IORING_CQE_F_BUFFER; (R5) operations that select pool buffers must return a buffer the kernel picked for '
+    'an abandoned operation — known finding K2; (R6) a completion that names a pool buffer (buf_id() is Some) '
+    'always hands it to a ReadBuf: no extra condition between the id and buffer_init/new_buffer. Conservation '
+    'over histories (a counting argument over run-time state) is not decided.'
 )
 NOT_DECIDED = "conservation over all histories; concurrent releases beyond the lock region structure"
 ASSUMPTIONS = ["the kernel consumes pool ring entries in [head, tail) only", "std Mutex semantics"]
